@@ -27,9 +27,11 @@ def unmarshalElems : List Val → List Val
   | [] => []
   | x :: rest => unmarshalElem x :: unmarshalElems rest
 
-/-- a Condition's expression: a Stack (any form) is expanded, everything else passed through -/
+/-- a Condition's expression: a Stack (any form) is expanded, a Condition (any form) is expanded to its
+four-entry row - recursively, to any depth (repair F43) -, everything else is passed through -/
 def unmarshalExpr : Val → Val
   | .stk _ c xs => .anys (strV c.kindText :: unmarshalElems xs)
+  | .cnd _ _ kw op ex => .anys [strV conditionLabel, strV kw, .opv op, unmarshalExpr ex]
   | v => v
 end
 
@@ -41,7 +43,9 @@ def Stk.unmarshal (s : Stk) : List Val := strV s.cfg.kindText :: unmarshalElems 
 `stack.unmarshalDefault` walks a nested Stack (any form) with the *private* `unmarshalDefault` again, so the
 nested Stack's own Unmarshaler is not consulted; a nested Condition (any form) goes through the *public*
 `Condition.Unmarshal`, which honours its Unmarshaler; `condition.unmarshalDefault` expands a Stack expression
-(any form) through the *public* `Stack.Unmarshal`, which honours the Unmarshaler of that Stack. The loop of
+(any form) through the *public* `Stack.Unmarshal`, which honours the Unmarshaler of that Stack, and a Condition
+expression (any form) through the *public* `Condition.Unmarshal`, which honours the Unmarshaler of that Condition
+(repair F43; the rule applies again to the inner Condition's own expression, to any depth). The loop of
 `stack.unmarshalDefault` runs while `err == nil`; an entry is appended only if its own call returned no error, so an
 error ends the list before the entry that raised it. `condition.unmarshalDefault` returns its four-entry row together
 with the error of the expression's call. -/
@@ -71,7 +75,9 @@ def unmarshalElemsK (K : Closures) : List Val → List Val × Option Nat
       let rs := unmarshalElemsK K rest
       (r.1 :: rs.1, rs.2)
 
-/-- `nexpr, err` of `condition.unmarshalDefault`: a Stack (any form) through the public `Unmarshal()` -/
+/-- `nexpr, err` of `condition.unmarshalDefault`: a Stack (any form) through the public `Stack.Unmarshal()`, a
+Condition (any form) through the public `Condition.Unmarshal()` (its own Unmarshaler, else its four-entry row with the
+error of *its* expression's call) -/
 def unmarshalExprK (K : Closures) : Val → Val × Option Nat
   | .stk _ c xs =>
     match c.umf with
@@ -79,6 +85,12 @@ def unmarshalExprK (K : Closures) : Val → Val × Option Nat
     | none =>
       let r := unmarshalElemsK K xs
       (.anys (strV c.kindText :: r.1), r.2)
+  | .cnd _ c kw op ex =>
+    match c.umf with
+    | some p => (.anys (K.unmarshal p).1, (K.unmarshal p).2)
+    | none =>
+      let r := unmarshalExprK K ex
+      (.anys [strV conditionLabel, strV kw, .opv op, r.1], r.2)
   | v => (v, none)
 end
 
